@@ -85,7 +85,7 @@ def build_tree(rng, idx: int):
 
 def gen(tier: str, seed: int) -> list[Case]:
     rng = rng_for(seed, PID, "gen")
-    n = 12 if tier == "quick" else 150
+    n = 12 if tier == "quick" else 700
     cases = []
     for i in range(n):
         files, gt = build_tree(rng, i)
